@@ -3,6 +3,10 @@ import ExponaxModel.Proofs.CrossProduct
 import ExponaxModel.Proofs.LayoutLemmas
 import ExponaxModel.Proofs.AliasND
 import ExponaxModel.Generated.Misc
+import ExponaxModel.Proofs.AliasND2Grad
+import ExponaxModel.Proofs.AliasND2Conv
+import ExponaxModel.Proofs.AliasND2Vort
+import ExponaxModel.Proofs.AliasND2React
 /-
 C03 — nonlinear terms equal the alias-free projection of the documented operator.
 
@@ -288,15 +292,67 @@ theorem C03_generated_cutoff_floor (c : Cfg ℂ) (hq : c.fq ≠ 0) :
   rfl
 
 /-
-Not proved in Lean: the per-term alias-free statement for the non-conservative convection, gradient norm,
-`vorticity2d`, `projected3d` and Gray-Scott in D ≥ 2 (they need the truncation lemma for Hermitian spectra of the form
-`(i s k_d)·x̂`); those model terms are tied to the implementation by the correspondence and to the documented operator
-by the 4x-oversampled oracle; "zero outside the band" is proved for all of them (C03_zero_outside_band).
+Not proved in Lean: the per-term statement for the 3-D rotational term `projected3d`, the Belousov–Zhabotinsky reaction
+and `general` in D ≥ 2 (model terms tied to the implementation by the correspondence and to the documented operator by
+the 4x-oversampled oracle); "zero outside the band" is proved for all terms (C03_zero_outside_band).
 -/
 
 
 example : ∃ c : Cfg ℂ, c.D = 1 ∧ c.fp = 2 ∧ c.fq = 3 ∧ 0 < c.N ∧ mask c 3 = 1 :=
   ⟨{ D := 1, N := 12, s := 1, fp := 2, fq := 3 }, rfl, rfl, rfl, by decide, by
     rw [mask_one _ rfl (by decide)]; simp [Kc]⟩
+
+/-! ### the remaining terms in every dimension (`Proofs/AliasND2*.lean`)
+
+`AliasND.dspec c d x p = (i s p_d)·x̂_p` is the spectrum of `∂_d x`; `uspec/vspec` those of the velocity
+`(∂₁ψ, −∂₀ψ)`, `ψ̂ = Δ̂⁻¹ ω̂` (guarded at the mean mode). Real scale `s = 2π/L`. -/
+
+/-- gradient norm `½|∇u|²`, every D, both values of the zero-mode fix -/
+theorem C03_gradient_norm_nd (c : Cfg ℂ) (hD : 0 < c.D) (hq : c.fq ≠ 0) (hK : 3 * Kc c < (c.N : ℤ)) (hN : 0 < c.N)
+    (s : ℝ) (hs : c.s = (s : ℂ)) (scale : ℂ) (zeroFix : Bool) (x : Array ℂ) (hx : AliasND.IsRealND c.D c.N x) (h : ℕ)
+    (hh : h < numModes c.D c.N) :
+    (mask c h = 1 → at2 (gradientNorm c 1 scale zeroFix #[Transform.rfftnM c.D c.N x]) 0 h =
+        if zeroFix = true ∧ h = 0 then 0 else
+          -scale * (1 / 2) * ∑ d ∈ Finset.range c.D,
+            AliasND.linConv c.D c.N (Kc c) (AliasND.dspec c d x) (AliasND.dspec c d x) (AliasND.kvec c.D c.N h)) ∧
+      (mask c h = 0 → at2 (gradientNorm c 1 scale zeroFix #[Transform.rfftnM c.D c.N x]) 0 h = 0) :=
+  AliasND.gradientNorm_alias_free_nd c hD hq hK hN s hs scale zeroFix x hx h hh
+
+/-- non-conservative multi-channel convection `(u·∇)u`, every D -/
+theorem C03_convection_nonconservative_nd (c : Cfg ℂ) (hD : 0 < c.D) (hq : c.fq ≠ 0) (hK : 3 * Kc c < (c.N : ℤ))
+    (hN : 0 < c.N) (s : ℝ) (hs : c.s = (s : ℂ)) (C : ℕ) (hC : C ≤ c.D) (scale : ℂ) (uh : MC ℂ) (xs : ℕ → Array ℂ)
+    (hx : ∀ ch < C, AliasND.IsRealND c.D c.N (xs ch))
+    (hu : ∀ ch < C, uh.getD ch #[] = Transform.rfftnM c.D c.N (xs ch)) (i : ℕ) (hi : i < C) (h : ℕ)
+    (hh : h < numModes c.D c.N) :
+    (mask c h = 1 → at2 (convection c C scale false false uh) i h =
+        -scale * ∑ j ∈ Finset.range C,
+          AliasND.linConv c.D c.N (Kc c) (AliasND.dftV c.D c.N (xs j)) (AliasND.dspec c j (xs i))
+            (AliasND.kvec c.D c.N h)) ∧
+      (mask c h = 0 → at2 (convection c C scale false false uh) i h = 0) :=
+  AliasND.convection_multi_nc_alias_free_nd c hD hq hK hN s hs C hC scale uh xs hx hu i hi h hh
+
+/-- 2-D vorticity convection `−b (u·∇)ω`, `u = ∇^⊥ Δ⁻¹ ω` -/
+theorem C03_vorticity_2d (c : Cfg ℂ) (hD : c.D = 2) (hq : c.fq ≠ 0) (hK : 3 * Kc c < (c.N : ℤ)) (hN : 0 < c.N) (s : ℝ)
+    (hs : c.s = (s : ℂ)) (scale : ℂ) (x : Array ℂ) (hx : AliasND.IsRealND c.D c.N x) (h : ℕ)
+    (hh : h < numModes c.D c.N) :
+    (mask c h = 1 → at2 (vorticity2d c scale none #[Transform.rfftnM c.D c.N x]) 0 h =
+        -scale * (AliasND.linConv c.D c.N (Kc c) (AliasND.uspec c x) (AliasND.dspec c 0 x) (AliasND.kvec c.D c.N h) +
+          AliasND.linConv c.D c.N (Kc c) (AliasND.vspec c x) (AliasND.dspec c 1 x) (AliasND.kvec c.D c.N h))) ∧
+      (mask c h = 0 → at2 (vorticity2d c scale none #[Transform.rfftnM c.D c.N x]) 0 h = 0) :=
+  AliasND.vorticity2d_alias_free c hD hq hK hN s hs scale x hx h hh
+
+/-- Gray–Scott reaction (cubic, 1/2 rule), every D, both channels -/
+theorem C03_gray_scott_nd (c : Cfg ℂ) (hD : 0 < c.D) (hq : c.fq ≠ 0) (hK : 4 * Kc c < (c.N : ℤ)) (hN : 0 < c.N)
+    (feed kill : ℂ) (xa xb : Array ℂ) (hxa : AliasND.IsRealND c.D c.N xa) (hxb : AliasND.IsRealND c.D c.N xb) (h : ℕ)
+    (hh : h < numModes c.D c.N) (hm : mask c h = 1) :
+    at2 (reaction c 2 (grayScottReact feed kill) #[Transform.rfftnM c.D c.N xa, Transform.rfftnM c.D c.N xb]) 0 h =
+        feed * ((if h = 0 then ((c.N ^ c.D : ℕ) : ℂ) else 0) - (Transform.rfftnM c.D c.N xa).getD h 0) -
+          AliasND.linConv3 c.D c.N (Kc c) (AliasND.dftV c.D c.N xa) (AliasND.dftV c.D c.N xb) (AliasND.dftV c.D c.N xb)
+            (AliasND.kvec c.D c.N h) ∧
+    at2 (reaction c 2 (grayScottReact feed kill) #[Transform.rfftnM c.D c.N xa, Transform.rfftnM c.D c.N xb]) 1 h =
+        -(feed + kill) * (Transform.rfftnM c.D c.N xb).getD h 0 +
+          AliasND.linConv3 c.D c.N (Kc c) (AliasND.dftV c.D c.N xa) (AliasND.dftV c.D c.N xb) (AliasND.dftV c.D c.N xb)
+            (AliasND.kvec c.D c.N h) :=
+  (AliasND.grayScott_alias_free_nd c hD hq hK hN feed kill xa xb hxa hxb h hh).1 hm
 
 end Exponax
